@@ -439,6 +439,15 @@ pub fn c09(sk: &Skeleton) -> Leaf {
     let lower_js = js.replace("\"ticker\":\"A\"", "\"ticker\":\"a\"").replace("\"ticker\":\"B\"", "\"ticker\":\"b\"");
     let p2: Result<Vec<cgt_core::Transaction>, _> = serde_json::from_str(&lower_js);
     leaf.ob_bool("C09.ticker-case-json", p2.as_ref().map(|t| *t == txs).unwrap_or(false), "lower-case tickers in JSON read back as different transactions");
+    // JSON accepts any string as a ticker: cased letters outside ASCII too
+    let mk = |t: &str| format!("[{{\"date\":\"2024-01-10\",\"ticker\":\"{t}\",\"action\":\"BUY\",\"amount\":\"1\",\"price\":\"2\"}}]");
+    let a: Result<Vec<cgt_core::Transaction>, _> = serde_json::from_str(&mk("soci\u{e9}t\u{e9}"));
+    let b: Result<Vec<cgt_core::Transaction>, _> = serde_json::from_str(&mk("SOCI\u{c9}T\u{c9}"));
+    let same = match (&a, &b) {
+        (Ok(x), Ok(y)) => x.len() == 1 && y.len() == 1 && x[0].ticker == y[0].ticker,
+        _ => false,
+    };
+    leaf.ob_bool("C09.ticker-case-json-non-ascii", same, "tickers differing only in the case of a non-ASCII letter are different securities in JSON input");
     leaf
 }
 
